@@ -138,7 +138,13 @@ def phase2(workers, limit, only, allchecks=False):
             rp = os.path.join(SWEEP, "rwt%d" % w)
             subprocess.run(["git", "-C", "/repo", "worktree", "remove", "--force", rp], capture_output=True)
             subprocess.run(["git", "-C", "/repo", "worktree", "add", "--detach", "-q", rp, "HEAD"], check=True)
-            subprocess.run(["git", "-C", rp, "apply", os.path.join(SWEEP, "surv", m["patch"] + ".diff")], check=True)
+            pr = subprocess.run(["git", "-C", rp, "apply", "--recount", "-C1", os.path.join(SWEEP, "surv", m["patch"] + ".diff")], capture_output=True, text=True)
+            if pr.returncode != 0:
+                m["verdict"] = "patch-does-not-apply"
+                subprocess.run(["git", "-C", "/repo", "worktree", "remove", "--force", rp], capture_output=True)
+                with lock:
+                    done[m["patch"]] = m
+                return m
             env = dict(ENV, VERIF_REPO=rp)
             order = ORDER[m["file"]] + ([c for c in ALL if c not in ORDER[m["file"]]] if allchecks else [])
             m["runs"] = []
